@@ -7,6 +7,7 @@ import torch
 import torch.nn as nn
 import torch.optim as optim
 from gymnasium import spaces
+from tensordict import TensorDictBase
 
 from agilerl.algorithms.core import RLAlgorithm
 from agilerl.algorithms.core.registry import HyperparameterConfig, NetworkGroup
@@ -411,7 +412,14 @@ class TD3(RLAlgorithm):
         :param policy_noise: Standard deviation of noise applied to policy, defaults to 0.2
         :type policy_noise: float, optional
         """
-        states, actions, rewards, next_states, dones = experiences
+        if isinstance(experiences, TensorDictBase):
+            states = experiences["obs"]
+            actions = experiences["action"]
+            rewards = experiences["reward"]
+            next_states = experiences["next_obs"]
+            dones = experiences["done"]
+        else:
+            states, actions, rewards, next_states, dones = experiences
 
         actions = actions.to(self.device)
         rewards = rewards.to(self.device)
